@@ -198,6 +198,10 @@ class Exec:
                     return Val('opaque', none=F(False), ident=ufun('m_' + f.attr)(base.ident))
                 if isinstance(f.value, ast.Name) and f.value.id == 'self' and f.attr in ('getbulk', 'getnext'):
                     return Val('call', none=F(False), ident=z3.IntVal(1 if f.attr == 'getbulk' else 2))
+            if isinstance(f, ast.Name) and f.id in ('GetBulkIter', 'GetNextIter'):
+                args = [self.expr(a, p) for a in e.args]
+                p.events.append(('iter', f.id, args))
+                return Val('call', none=F(False), ident=z3.IntVal(3 if f.id == 'GetBulkIter' else 4))
             if isinstance(f, ast.Name) and f.id == 'RPSPolicer':
                 return Val('obj', none=F(False), ident=fresh('policer'))
             for a in e.args:
@@ -668,6 +672,47 @@ def main():
                                                ok=(r == z3.unsat), unknown=(r == z3.unknown),
                                                message="" if r == z3.unsat else "fetch() does not return getbulk() exactly when self._allow_bulk"))
             out['functions'].append(dict(fn='src/gufo/snmp/%s :: SnmpSession.fetch' % rel, contract=True, mode='pyinit-wp', paths=len(fp)))
+            # ---- G1: getbulk(oid, max_repetitions=None): the iterator asks for the caller's max_repetitions, or for the session's
+            #          value when none (or 0, which an agent answers with nothing) is given --------------------------------
+            gb = find_method(tree, 'SnmpSession', 'getbulk')
+            if gb is None:
+                raise Unsupported("%s: SnmpSession.getbulk is gone" % rel)
+            names = [a.arg for a in gb.args.args]
+            if 'max_repetitions' not in names:
+                raise Unsupported("%s: getbulk has no max_repetitions parameter" % rel)
+            dflt = gb.args.defaults[names.index('max_repetitions') - (len(names) - len(gb.args.defaults))] if (names.index('max_repetitions') - (len(names) - len(gb.args.defaults))) >= 0 else None
+            d_ok = isinstance(dflt, ast.Constant) and dflt.value is None
+            out['obligations'].append(dict(id="%s:G1_getbulk_default_is_the_session_value" % tag, fn="%s :: SnmpSession.getbulk" % rel, where="signature",
+                                           ok=d_ok, unknown=False, message="" if d_ok else "the default of getbulk(max_repetitions=...) is not None: the session's max_repetitions is no longer used"))
+            mr = Val('num', none=z3.Bool('mr_is_none'), num=z3.Int('mr'))
+            smr = Val('num', none=F(False), num=z3.Int('session_mr'))
+            gp = Exec(enum).block(gb.body, [Path([], {'max_repetitions': mr, 'self._max_repetitions': smr, 'oid': opaque()})])
+            want = z3.If(z3.And(z3.Not(mr.none), mr.num != 0), mr.num, smr.num)
+            for pi, p in enumerate(gp):
+                sol = z3.Solver()
+                for h in p.cond:
+                    sol.add(h)
+                if sol.check() != z3.sat:
+                    continue
+                its = [e for e in p.events if e[0] == 'iter' and e[1] == 'GetBulkIter']
+                goal = F(False)
+                if len(its) == 1:
+                    cands = [a for a in its[0][2] if a.kind == 'num']
+                    if len(cands) == 1:
+                        goal = z3.And(z3.Not(cands[0].none), cands[0].num == want)
+                sol = z3.Solver()
+                for h in [smr.num > 0] + p.cond:
+                    sol.add(h)
+                sol.add(z3.Not(goal))
+                r = sol.check()
+                msg = ""
+                if r == z3.sat:
+                    m = sol.model()
+                    msg = "getbulk(max_repetitions=%s) with a session value of %s does not ask for the expected repetitions" % (
+                        'None' if z3.is_true(m.eval(mr.none, model_completion=True)) else m.eval(mr.num, model_completion=True), m.eval(smr.num, model_completion=True))
+                out['obligations'].append(dict(id="%s:getbulk.P%d.G1_repetitions_asked_for" % (tag, pi), fn="%s :: SnmpSession.getbulk" % rel, where="path %d" % pi,
+                                               ok=(r == z3.unsat), unknown=(r == z3.unknown), message=msg))
+            out['functions'].append(dict(fn='src/gufo/snmp/%s :: SnmpSession.getbulk' % rel, contract=True, mode='pyinit-wp', paths=len(gp)))
         check_user(out)
     except Unsupported as e:
         print(json.dumps(dict(inconclusive="unsupported construct: %s" % e)))
